@@ -568,6 +568,7 @@ func c18r8(rc *core.RC) {
 			passes = append(passes, b)
 		}
 	}
+	c18r8source(rc, fd, info, loop)
 	want := []int{'\t', '\n', '\r', ' '}
 	rc.Check(fmt.Sprint(passes) == fmt.Sprint(want), key, loop.Pos(), "after the value the bytes %s are skipped and every other byte makes Valid false (all 256 values evaluated; wanted exactly tab, LF, CR, space)", core.FmtBytes(passes))
 }
@@ -864,4 +865,174 @@ func c18r10(rc *core.RC) {
 		}
 		return "; wrong: " + strings.Join(bad, ", ")
 	}())
+}
+
+// ---- C18.R12 structural tokens are looked for behind white space ----
+
+// In the walkers of compact.go and indent.go (objects and arrays) every test of the byte under the cursor against a
+// structural token of the container ('}' ']' ':' ',') has to see the byte that follows the white space: the cursor
+// it reads was last set by skipWhiteSpace. A test directly behind `cursor++` takes a blank for "not the closing
+// bracket" and rejects `{ }` or `[\n]`, which encoding/json accepts (and the sibling file still does).
+func c18r12(rc *core.RC) {
+	p := rc.P
+	n := 0
+	for _, fd := range p.Funcs("encoder") {
+		if fd.Body == nil {
+			continue
+		}
+		base := p.FileBase(fd.Pos())
+		if base != "compact.go" && base != "indent.go" {
+			continue
+		}
+		name := fd.Name.Name
+		if !strings.HasSuffix(name, "Object") && !strings.HasSuffix(name, "Array") {
+			continue
+		}
+		info := p.Info(fd)
+		fn := p.FuncName(fd)
+		rc.Touch(fn)
+		isCursor := func(e ast.Expr) bool {
+			id, ok := core.Unparen(e).(*ast.Ident)
+			return ok && id.Name == "cursor"
+		}
+		readsCursorByte := func(e ast.Expr) bool {
+			ix, ok := core.Unparen(e).(*ast.IndexExpr)
+			return ok && isCursor(ix.Index)
+		}
+		structural := func(e ast.Expr) bool {
+			v, ok := core.ConstInt(info, e)
+			return ok && (v == '}' || v == ']' || v == ':' || v == ',')
+		}
+		k := 0
+		var visit func(list []ast.Stmt, lastSet string)
+		visit = func(list []ast.Stmt, lastSet string) {
+			for _, st := range list {
+				// tests in this statement
+				var tests []ast.Node
+				switch x := st.(type) {
+				case *ast.IfStmt:
+					if be, ok := core.Unparen(x.Cond).(*ast.BinaryExpr); ok && (be.Op == token.EQL || be.Op == token.NEQ) && readsCursorByte(be.X) && structural(be.Y) {
+						tests = append(tests, be)
+					}
+				case *ast.SwitchStmt:
+					if x.Tag != nil && readsCursorByte(x.Tag) {
+						for _, c := range x.Body.List {
+							for _, l := range c.(*ast.CaseClause).List {
+								if structural(l) {
+									tests = append(tests, x.Tag)
+								}
+							}
+						}
+						if len(tests) > 1 {
+							tests = tests[:1]
+						}
+					}
+				}
+				for _, tst := range tests {
+					n++
+					k++
+					key := fmt.Sprintf("%s/token-test#%d behind-white-space", fn, k)
+					rc.Check(lastSet == "skipWhiteSpace", key, tst.Pos(), "the byte compared with a structural token (%s) is the one skipWhiteSpace stopped at (the cursor was last set by %s): a test directly behind an increment takes white space inside an empty container for an element and fails on `{ }` / `[\\n]`", core.Src(p.Fset, tst), lastSet)
+				}
+				// how this statement leaves the cursor
+				switch x := st.(type) {
+				case *ast.AssignStmt:
+					for i, l := range x.Lhs {
+						if !isCursor(l) {
+							continue
+						}
+						lastSet = "an assignment"
+						rhs := x.Rhs[0]
+						if len(x.Rhs) == len(x.Lhs) {
+							rhs = x.Rhs[i]
+						}
+						if c, ok := core.Unparen(rhs).(*ast.CallExpr); ok {
+							lastSet = "a call of " + core.CalleeName(info, c)
+							if strings.HasSuffix(core.CalleeName(info, c), "skipWhiteSpace") {
+								lastSet = "skipWhiteSpace"
+							}
+						}
+					}
+				case *ast.IncDecStmt:
+					if isCursor(x.X) {
+						lastSet = "cursor++"
+					}
+				case *ast.IfStmt:
+					visit(x.Body.List, lastSet)
+					if e, ok := x.Else.(*ast.BlockStmt); ok {
+						visit(e.List, lastSet)
+					}
+				case *ast.ForStmt:
+					// the loop body starts with whatever the end of the previous iteration left: unknown
+					visit(x.Body.List, "the previous iteration")
+				case *ast.SwitchStmt:
+					for _, c := range x.Body.List {
+						visit(c.(*ast.CaseClause).Body, lastSet)
+					}
+				case *ast.BlockStmt:
+					visit(x.List, lastSet)
+				}
+			}
+		}
+		visit(fd.Body.List, "the caller")
+	}
+	if n < 10 {
+		rc.Unknown("encoder/container-walkers", token.NoPos, "found %d structural-token tests in the object and array walkers of compact.go and indent.go (confirmed: 10)", n)
+	}
+}
+
+// c18r8source: the bytes the trailing loop of Valid examines are the input behind the value, data[InputOffset():].
+// What the decoder happens to hold (Decoder.Buffered) ends at the read window and at the first NUL: bytes not read
+// yet and bytes behind a NUL would never be looked at.
+func c18r8source(rc *core.RC, fd *ast.FuncDecl, info *types.Info, loop ast.Stmt) {
+	p := rc.P
+	key := "json.Valid/trailing-bytes-are-the-rest-of-the-input"
+	var data types.Object
+	if fd.Type.Params != nil && len(fd.Type.Params.List) > 0 && len(fd.Type.Params.List[0].Names) > 0 {
+		data = info.Defs[fd.Type.Params.List[0].Names[0]]
+	}
+	rs, ok := loop.(*ast.RangeStmt)
+	if !ok || data == nil {
+		rc.Unknown(key, loop.Pos(), "the trailing loop is not a range over a slice of the parameter")
+		return
+	}
+	usesBuffered := false
+	ast.Inspect(fd.Body, func(m ast.Node) bool {
+		if c, ok := m.(*ast.CallExpr); ok && strings.HasSuffix(core.CalleeName(info, c), "Decoder.Buffered") {
+			usesBuffered = true
+		}
+		return true
+	})
+	sl, ok := core.Unparen(rs.X).(*ast.SliceExpr)
+	if !ok || core.ObjOf(info, sl.X) != data || sl.Low == nil || sl.High != nil {
+		if usesBuffered {
+			rc.Bad(key, rs.Pos(), "the trailing loop ranges over %s and Valid reads Decoder.Buffered(): the buffered remainder ends at the read window and at the first NUL byte, so garbage behind either is never examined; the rest of the input is data[InputOffset():]", core.Src(p.Fset, rs.X))
+		} else {
+			rc.Unknown(key, rs.Pos(), "the trailing loop ranges over %s, not over data[offset:]", core.Src(p.Fset, rs.X))
+		}
+		return
+	}
+	// the low bound comes from Decoder.InputOffset
+	fromOffset := false
+	lowObj := core.ObjOf(info, sl.Low)
+	ast.Inspect(fd.Body, func(m ast.Node) bool {
+		as, ok := m.(*ast.AssignStmt)
+		if !ok || len(as.Lhs) != 1 || len(as.Rhs) != 1 || lowObj == nil || core.ObjOf(info, as.Lhs[0]) != lowObj {
+			return true
+		}
+		ast.Inspect(as.Rhs[0], func(k ast.Node) bool {
+			if c, ok := k.(*ast.CallExpr); ok && strings.HasSuffix(core.CalleeName(info, c), "Decoder.InputOffset") {
+				fromOffset = true
+			}
+			return true
+		})
+		return true
+	})
+	ast.Inspect(sl.Low, func(k ast.Node) bool {
+		if c, ok := k.(*ast.CallExpr); ok && strings.HasSuffix(core.CalleeName(info, c), "Decoder.InputOffset") {
+			fromOffset = true
+		}
+		return true
+	})
+	rc.Check(fromOffset, key, rs.Pos(), "the trailing loop ranges over the parameter from Decoder.InputOffset() to its end (%s): every byte behind the value is examined, read or not, behind a NUL or not", core.Src(p.Fset, rs.X))
 }
